@@ -13,7 +13,33 @@ func init() {
 	})
 }
 
+// genC09Spam: "all of the scope API, recording and reporting may be used
+// concurrently without ... deadlock". Several goroutines update one gauge
+// without ever pausing while another closes the root: the final report pass,
+// and with it Close, must get through.
+func genC09Spam(g *Gen, tier string) *Program {
+	p := &Program{Prop: "C09"}
+	c := &p.Cfg
+	baseCfg(g, c)
+	c.Faults.SlowPct = 0
+	p.Prelude = append(p.Prelude, Op{K: "gauge", S: 0, M: 70, Name: "spam"}, Op{K: "upd", M: 70, F: f64bits(1)})
+	for i := g.Range(2, 4); i > 0; i-- {
+		var ops []Op
+		for k := g.Intn(3); k > 0; k-- {
+			ops = append(ops, Op{K: "yield"})
+		}
+		p.Tasks = append(p.Tasks, append(ops, Op{K: "updspam", M: 70}))
+	}
+	p.Tasks = append(p.Tasks, []Op{{K: "yield"}, {K: "closeroot"}})
+	c.MaxSteps = 6000 // fair scheduling from here on
+	c.Flags = map[string]int{"spam": 1}
+	return p
+}
+
 func genC09(g *Gen, tier string) *Program {
+	if g.Bool(4) {
+		return genC09Spam(g, tier)
+	}
 	p := &Program{Prop: "C09"}
 	c := &p.Cfg
 	baseCfg(g, c)
